@@ -166,6 +166,8 @@ def run(prop, tier, seed, replay, UNITS, build_unit, run_verus, scan_assumptions
     bounded = replay_driver.bounded_leaves(prop, work, tier, seed, open_known)
     for b in bounded.get('violations', []):
         violations.append((b['obligation'], b))
+    for u_ in bounded.get('undecided', []):
+        undecided.append(('replay', 'harness-build', u_))
     known_lines += bounded.get('known_lines', [])
 
     ids_failed = set(failed.keys())
